@@ -524,7 +524,7 @@ def pivot(names, types, rows, c1, c2):
     """Reference PIVOT BY (C15) of an un-pivoted result on column indexes c1, c2."""
     other = [i for i in range(len(names)) if i not in (c1, c2)]
     keys2 = sorted({r[c2] for r in rows})
-    keys1 = sorted({r[c1] for r in rows})
+    keys1 = sorted({r[c1] for r in rows}, key=SortKey)
     out_names = [f'{names[c1]}/{names[c2]}']
     out_types = [types[c1]]
     for k in keys2:
